@@ -17,7 +17,7 @@ import (
 func init() {
 	register(&explore.Prop{
 		ID: "C12", Level: levelFE, Explorer: "E3 environment-answer enumerator",
-		Rule: "workloads = every list of 1..2 segments over a small kinds alphabet with every deletion set (public Merge(...).WriteTo) + a 130-document two-block workload with doc values + Segment.WriteTo of built, loaded-from-memory and loaded-from-file segments; for each workload the destination writer fails (fail-stop) at EVERY byte offset k in [0,len], in two variants (accepts exactly k bytes / rejects the crossing write whole), x merge buffer sizes {1,2,3,7,16,64,4096,1<<20}; cancellation: close channel closed before the call and closed at the moment the writer has received t bytes for EVERY t in [0,len] (buffer size 1 makes every write a boundary; also 16 and 4096), and - on the instrumented build - closed immediately before EVERY poll of the channel (every `select` the merge executes, by index); " +
+		Rule: "workloads = every list of 1..2 segments over a small kinds alphabet with every deletion set (public Merge(...).WriteTo) + a 130-document two-block workload with doc values + Segment.WriteTo of built, loaded-from-memory and loaded-from-file segments; for each workload the destination writer fails (fail-stop) at EVERY byte offset k in [0,len], in two variants (accepts exactly k bytes / rejects the crossing write whole), x merge buffer sizes {0 (default),1,2,3,7,16,64,4096,1<<20}; cancellation: close channel closed before the call and closed at the moment the writer has received t bytes for EVERY t in [0,len] (buffer size 1 makes every write a boundary; also 16 and 4096), and - on the instrumented build - closed immediately before EVERY poll of the channel (every `select` the merge executes, by index); " +
 			"oracle: writer reported an error => non-nil error; closed => ErrClosed or (nil error and bytes == fault-free file and n == len); one deviation per run, runs go to completion; distinct = (workload, fault kind, k, buffer size); non-trivial = the injected fault was actually hit",
 		Assumptions: []string{"bounded workloads (DESIGN.md 5 C12)", "fail-stop writer model: after the first error every later Write fails too", "cancellation from another goroutine at every scheduling point is explored separately (C12 thorough, E4) when the instrumented build is available"},
 		Budget:      qBudget, Run: runC12,
@@ -76,7 +76,7 @@ type c12Workload struct {
 }
 
 func mergeWorkload(name string, segs []segment.Segment, drops []*roaring.Bitmap) c12Workload {
-	return c12Workload{name: name, isMerge: true, bufSizes: []int{1, 2, 3, 7, 16, 64, 4096, 1 << 20},
+	return c12Workload{name: name, isMerge: true, bufSizes: []int{0, 1, 2, 3, 7, 16, 64, 4096, 1 << 20},
 		run: func(w *faultWriter, ch chan struct{}, bufSize int) (n int64, err error) {
 			msg := explore.Guard(func() { n, err = ice.Merge(segs, drops, bufSize).WriteTo(w, ch) })
 			if msg != "" {
